@@ -10,7 +10,7 @@ from . import nf_common
 
 MANIFEST = {
     "text": "Every read of exact_errors / profile / drop_doctype / discard_bom in both tokenizers and both tree builders is classified from the code: message-only (selects the wording or presence of a parse error), timing-only, or path-select; path-select sites are proved equivalent by table rules (fast-path sets complete, SIMD masks == scalar set, all fast/slow/SIMD variants of a state tabulate identically). discard_bom is read only in feed() and cleared after the first character; drop_doctype guards exactly the append_doctype call.",
-    "note": "Decides R08.1-R08.3. Not decided: the SIMD newline-count arithmetic beyond the mask sets; cfg(for_c) configuration. Trusted: flattening engine. Also decided: split-before-whitespace-decision in every whitespace-sensitive insertion mode (R08.4).",
+    "note": "Decides R08.1-R08.3. Not decided: the SIMD newline-count arithmetic beyond the mask sets; cfg(for_c) configuration. Trusted: flattening engine. Also decided: split-before-whitespace-decision in every whitespace-sensitive insertion mode (R08.4). Round 8: R08.6 = input stream preprocessing transcription for both tokenizers (exact_errors only adds the report), R08.7 feed() drops at most one BOM character and answers what run() answered.",
     "technique": "syntactic-context classification of option reads (who-may-read) + table equivalence of path-select variants",
 }
 LEVEL = "other"
